@@ -82,7 +82,7 @@ fn main() {
                     use std::io::Seek;
                     out.flush().unwrap();
                     let _ = out.get_mut().seek(std::io::SeekFrom::End(0));
-                    writeln!(out, "{}", serde_json::json!({"h": prog["h"], "i": 1, "op": "run", "result": if done { "crash" } else { "hang" }, "steps": [], "blocked": [], "deviations": 0, "nthreads": 0, "panic": "", "spinners": [], "tticks": 0, "spincheck": false, "final_pos": -1, "pos0": 0})).unwrap();
+                    writeln!(out, "{}", serde_json::json!({"h": prog["h"], "i": 1, "op": "run", "result": if done { "crash" } else { "hang" }, "steps": [], "blocked": [], "deviations": 0, "nthreads": 0, "panic": "", "spinners": [], "tticks": 0, "spincheck": false, "final_pos": -1, "pos0": 0, "frames": [], "framecheck": false, "nbars": 0, "sumcheck": false})).unwrap();
                 }
             }
         }
